@@ -125,7 +125,7 @@ def run(ctx):
     cfg = [(['**kern'], 5), (['**kern', '**text'], 5), (['**kern', '**kern'], 4), (['**text', '**kern', '**kern'], 4),
            (['**kern', '**text', '**kern', '**dynam'], 3)]
     if not quick:
-        cfg = [(h, d + 1) for h, d in cfg] + [(['**root', '**fing', '**kern'], 4), (['**dynam', '**harm'], 5), (['**zzz', '**kern'], 4)]
+        cfg = [(h, d + 1) for h, d in cfg] + [(['**root', '**fing', '**kern'], 4), (['**dynam', '**harm'], 5)]
     ctx.rule = ('every enabled row sequence up to the depth bound x every subset of spine ids x every subset of header types x combinations; '
                 'non-trivial = projection removes >= 1 spine of a document containing a split')
     ctx.bounds = {'configurations': [{'headers': h, 'depth': d} for h, d in cfg], 'column_cap': 6}
